@@ -221,9 +221,29 @@ def _match_text(src, start, needle):
     return re.match(pat, src[start:]).group(0)
 
 
-def find_fn(src, lo, hi, name, what):
+def _cfg_conditions(attrs):
+    """The conditions of the #[cfg(..)] attributes in an attribute block (balanced parentheses)."""
+    out = []
+    for m in re.finditer(r"#\[cfg\(", attrs):
+        i = m.end()
+        depth = 1
+        while i < len(attrs) and depth:
+            depth += attrs[i] == "("
+            depth -= attrs[i] == ")"
+            i += 1
+        out.append(attrs[m.end():i - 1])
+    return out
+
+
+def find_fn(src, lo, hi, name, what, feats=None):
     """Locate `fn name` directly inside src[lo:hi] (brace depth 1 of an impl, or anywhere for free fns)."""
     hits = [m.start() + lo for m in re.finditer(r"\bfn\s+%s\s*[<(]" % re.escape(name), src[lo:hi])]
+    if len(hits) > 1 and feats is not None:
+        # several definitions of one name that differ in their #[cfg(..)]: keep those the unit's configuration compiles
+        def _live(k):
+            attrs = src[_attr_start(src, k):k]
+            return all(eval_cfg(c, feats) for c in _cfg_conditions(attrs))
+        hits = [k for k in hits if _live(k)]
     if len(hits) != 1:
         raise Undecided("lost anchor: fn %s matched %d times (%s)" % (name, len(hits), what))
     k = hits[0]
@@ -438,6 +458,13 @@ def generic_rewrites(text, rw, unit):
     n = len(re.findall(r"\.expect\(\s*\"", text))
     text = _replace_method_calls(text, ".expect(", ".unwrap()")
     rw.hit("R9 expect(msg) -> unwrap()", n)
+    # R16: associated float constants (Verus: "not supported") -> f32_const(k), a named deterministic value
+    for k, cname in enumerate(("EPSILON", "MAX", "MIN", "MIN_POSITIVE", "INFINITY", "NEG_INFINITY", "NAN")):
+        pat = r"\b(?:core::|std::)?f32::%s\b" % cname
+        n = len(re.findall(pat, text))
+        if n:
+            text = re.sub(pat, "f32_const(%du8)" % k, text)
+            rw.hit("R16 f32::%s -> f32_const(%d)" % (cname, k), n)
     # unimplemented!() / panic!(..) -> vpanic()  (requires false: must be unreachable)
     for mac in ("unimplemented!", "panic!", "unreachable!"):
         n = len(re.findall(r"(?<![\w_])%s\(" % re.escape(mac), text))
@@ -778,7 +805,7 @@ def do_extract(ex, feats, rw, probe, tygroups):
         lo, hi = 0, len(src)
         names = names or [re.search(r"fn\s+(\w+)", a["modfn"]).group(1)]
     for name in names:
-        s, bo, bc = find_fn(src, lo, hi, name, what)
+        s, bo, bc = find_fn(src, lo, hi, name, what, feats)
         sig = src[s:bo]
         body = src[bo:bc + 1]
         sig = post(sig)
@@ -976,8 +1003,10 @@ def parse_verus_output(out, path, text):
         fns = [f for f in fns if f]
         findings.append({"kind": kind, "msg": msg, "lines": locs, "fn": fns[0] if fns else None,
                          "text": b[:2500]})
+    # the --time statistics after "verus-build-info" mention "rlimit" as a column name: scan the diagnostics only
+    diag = out.split("verus-build-info")[0]
     for mk in UNDECIDED_MARKERS:
-        if mk in out and not findings:
+        if mk in diag and not findings:
             hard.append("marker %r in verus output" % mk)
     return verified, errors, findings, hard
 
